@@ -514,7 +514,7 @@ func checkC14(R *Run) {
 				}
 				nCalls++
 				a := ci.Common().Args
-				if a[0] != ssa.Value(fn.Params[0]) || a[1] != ssa.Value(fn.Params[1]) {
+				if stripConv(resolveLocal(stripConv(a[0]))) != ssa.Value(fn.Params[0]) || stripConv(resolveLocal(stripConv(a[1]))) != ssa.Value(fn.Params[1]) {
 					R.bad("reply-ctor", fmt.Sprintf("%s: %s #%d", fname(fn), sed(n), nCreateIn(f, ci)), P.ipos(ci), "a handler builds a reply for another request or on behalf of another connection than its own parameters")
 				}
 			}
@@ -1181,6 +1181,30 @@ func checkC18(R *Run) {
 						sortedKeys = true
 					}
 				}
+				// … or the entry's ID field is assigned the encoded key (`ID: [4]byte(AppendUint32(nil, id))`)
+				eachInstr(fn, func(ins ssa.Instruction) {
+					st, isSt := ins.(*ssa.Store)
+					if !isSt {
+						return
+					}
+					fa, isFa := st.Addr.(*ssa.FieldAddr)
+					if !isFa {
+						return
+					}
+					if f, _ := fieldOf(fa); f != "hotline.NewsArtList.ID" {
+						return
+					}
+					viaEnc := false
+					fromKey := P.reaches(st.Val, func(x ssa.Value) bool {
+						if cv := callValue(x); cv != nil && (strings.HasSuffix(calleeName(&cv.Call), ".AppendUint32") || strings.HasSuffix(calleeName(&cv.Call), ".PutUint32")) {
+							viaEnc = true
+						}
+						return x == ssa.Value(sc)
+					})
+					if fromKey && viaEnc && instrDominates(sc, st) {
+						sortedKeys = true
+					}
+				})
 			}
 			if sortedKeys {
 				ok = true
@@ -1233,6 +1257,22 @@ func checkC18(R *Run) {
 						if f, _ := fieldOf(fa); f == "hotline.NewsArtListData.Count" {
 							if c, isC := stripConv(st.Val).(*ssa.Call); isC && calleeName(&c.Call) == "builtin.len" {
 								cnt = true
+							}
+							// a counter that starts at 0 and is incremented once per encoded entry
+							if phi, isPhi := stripConv(st.Val).(*ssa.Phi); isPhi {
+								zero, inc := false, false
+								for _, e := range phi.Edges {
+									if k, isK := constInt(e); isK && k == 0 {
+										zero = true
+									} else if b, isB := e.(*ssa.BinOp); isB && b.Op == token.ADD && b.X == ssa.Value(phi) {
+										if k, isK := constInt(b.Y); isK && k == 1 {
+											inc = true
+										}
+									}
+								}
+								if zero && inc && len(phi.Edges) == 2 {
+									cnt = true
+								}
 							}
 						}
 					}
@@ -1315,6 +1355,9 @@ func checkC18(R *Run) {
 								c, isC := x.(*ssa.Call)
 								return isC && (calleeName(&c.Call) == "slices.Max" || calleeName(&c.Call) == "slices.MaxFunc")
 							}) {
+								hasMaxPlus1, viaMax = true, true
+							}
+							if isMaxFoldOverKeys(fn, b.X) {
 								hasMaxPlus1, viaMax = true, true
 							}
 						}
@@ -1469,15 +1512,25 @@ func blockLocalValue(v ssa.Value) ssa.Value {
 			at = i
 		}
 	}
-	for i := at - 1; i >= 0; i-- {
-		switch x := instrs[i].(type) {
-		case *ssa.Store:
-			if x.Addr == ld.X {
-				return x.Val
+	blk := ld.Block()
+	for depth := 0; depth < 4; depth++ {
+		for i := at - 1; i >= 0; i-- {
+			switch x := instrs[i].(type) {
+			case *ssa.Store:
+				if x.Addr == ld.X {
+					return x.Val
+				}
+			case ssa.CallInstruction:
+				return v
 			}
-		case ssa.CallInstruction:
+		}
+		// nothing in this block: the block before it, when there is exactly one way in
+		if len(blk.Preds) != 1 {
 			return v
 		}
+		blk = blk.Preds[0]
+		instrs = blk.Instrs
+		at = len(instrs)
 	}
 	return v
 }
@@ -1516,4 +1569,119 @@ func bytePairInto(fn *ssa.Function, base ssa.Value) (ssa.Value, *ssa.Store) {
 		return blockLocalValue(lo), loStore
 	}
 	return nil, nil
+}
+
+// isMaxFoldOverKeys: v is the result of a hand-written maximum over the keys of a ranged map —
+// `for id := range m { if [!found ||] id > best { best = id } }`: a loop-carried value that is only ever replaced by
+// the range key, on the branch where the key compares greater than it.
+func isMaxFoldOverKeys(fn *ssa.Function, v ssa.Value) bool {
+	// the phis the value is made of
+	phis := map[*ssa.Phi]bool{}
+	var collect func(x ssa.Value, d int)
+	collect = func(x ssa.Value, d int) {
+		x = stripConv(x)
+		p, ok := x.(*ssa.Phi)
+		if !ok || phis[p] || d > 6 {
+			return
+		}
+		phis[p] = true
+		for _, e := range p.Edges {
+			collect(e, d+1)
+		}
+	}
+	collect(v, 0)
+	if len(phis) == 0 {
+		return false
+	}
+	isKey := func(x ssa.Value) bool {
+		ex, ok := stripConv(x).(*ssa.Extract)
+		if !ok || ex.Index != 1 {
+			return false
+		}
+		nx, ok := ex.Tuple.(*ssa.Next)
+		if !ok {
+			return false
+		}
+		rg, ok := nx.Iter.(*ssa.Range)
+		if !ok {
+			return false
+		}
+		_, isMap := rg.X.Type().Underlying().(*types.Map)
+		return isMap
+	}
+	inPhis := func(x ssa.Value) bool {
+		p, ok := stripConv(x).(*ssa.Phi)
+		return ok && phis[p]
+	}
+	// every non-phi operand of those phis is the range key or the initial zero
+	keyIn := false
+	for p := range phis {
+		for _, e := range p.Edges {
+			e = stripConv(e)
+			if _, isPhi := e.(*ssa.Phi); isPhi {
+				continue
+			}
+			if isKey(e) {
+				keyIn = true
+				continue
+			}
+			if k, isK := constInt(e); isK && k == 0 {
+				continue
+			}
+			return false
+		}
+	}
+	if !keyIn {
+		return false
+	}
+	// … and the key is taken on the branch where it is greater — whenever it is greater: between taking the next key and
+	// the comparison no other test decides (only "is there a next key" and a found-so-far flag)
+	onlyFoldTests := func(cmp *ssa.BinOp) bool {
+		for d := cmp.Block().Idom(); d != nil; d = d.Idom() {
+			if len(d.Instrs) == 0 {
+				continue
+			}
+			iff, isIf := d.Instrs[len(d.Instrs)-1].(*ssa.If)
+			if !isIf {
+				continue
+			}
+			cond := iff.Cond
+			if u, isU := cond.(*ssa.UnOp); isU && u.Op == token.NOT {
+				cond = u.X
+			}
+			if ex, isEx := cond.(*ssa.Extract); isEx && ex.Index == 0 {
+				if _, isNext := ex.Tuple.(*ssa.Next); isNext {
+					return true // reached the head of the loop
+				}
+			}
+			if ph, isPhi := cond.(*ssa.Phi); isPhi {
+				if bt, isB := ph.Type().Underlying().(*types.Basic); isB && bt.Info()&types.IsBoolean != 0 {
+					continue // the found-so-far flag
+				}
+			}
+			return false
+		}
+		return false
+	}
+	greater := false
+	eachInstr(fn, func(ins ssa.Instruction) {
+		b, ok := ins.(*ssa.BinOp)
+		if !ok {
+			return
+		}
+		switch b.Op {
+		case token.GTR:
+			if isKey(b.X) && inPhis(b.Y) && onlyFoldTests(b) {
+				greater = true
+			}
+		case token.LSS:
+			if inPhis(b.X) && isKey(b.Y) && onlyFoldTests(b) {
+				greater = true
+			}
+		}
+		if (b.Op == token.LSS && isKey(b.X) && inPhis(b.Y)) || (b.Op == token.GTR && inPhis(b.X) && isKey(b.Y)) {
+			greater = false // a minimum
+		}
+	})
+	return greater
 }
